@@ -2,11 +2,13 @@
 plus the design-level models (harness/mmdesign.py)."""
 from harness import mm
 from harness import mmdesign
+from harness import scoreorder
 
 OWNER = 'C03'
 
 
 def run(res):
+  scoreorder.run(res, thorough=(res.tier == 'thorough'))
   mmdesign.run_design_level(res, OWNER)
   insts, verdicts, stats = mm.run_search_clauses(res, OWNER)
   mm.vacuity_guard(res, OWNER, stats)
@@ -16,4 +18,7 @@ def run(res):
 
 
 def replay(res, blob):
+  if blob['case'].get('kind') == 'scoreorder':
+    scoreorder.run(res)
+    return
   mm.replay_case(res, blob)
